@@ -318,6 +318,20 @@ class Ctx:
         return rc
 
 
+def toy_guard(ctx, fn):
+    """Run a toy-group binding last (after the real-curve bindings, so that nothing it rebinds can leak into them) and only
+    where it applies: if the re-parameterisation fails its self-check on this tree (constants inlined, tables cached at
+    module level, ...), the binding is skipped with a note -- the real-curve bindings have already decided the property."""
+    try:
+        fn()
+    except MachineryError as e:
+        if "toy" not in str(e):
+            raise
+        msg = "toy-group binding skipped on this tree: %s" % e
+        print("NOTE " + msg)
+        ctx.notes.append(msg)
+
+
 # ---------------------------------------------------------------------- value helpers
 def B(b):
     """bytes -> JSON list of ints"""
